@@ -25,24 +25,18 @@ Proof. exact parse_tokens_of. Qed.
 
 (* ---- the property ---- *)
 
-(* Outside the known classes, the text the exporter builds for an annotation it accepts is one
+(* Outside the two known classes that make the output unreadable, the text the exporter builds for an annotation it accepts is one
    JSON object, and it is the intended tree: nothing lost or changed by quoting, commas, passes. *)
 Theorem C17_export_is_intended_tree : forall st c a av j,
   get_ann st a = Some av ->
   Known_C17_config_chars c = false ->
   Known_C17_nonfinite av = false ->
-  Known_C17_nested_unexportable av = false ->
   forallb (fun d => value_dates_plain (d_val d)) (a_data av) = true ->   (* chrono's to_rfc3339 *)
-  ranges_ok (a_target av) = true ->                                       (* store invariant *)
   export_ast st c a = Some j ->
   exists s, to_webannotation st c a = Some s /\ parse_json s = Some j /\ is_object j = true.
 Proof.
-  intros st c a av j Ha Hc Hf Hn Hd Hr E.
+  intros st c a av j Ha Hc Hf Hd E.
   apply negb_false_iff in Hc. apply negb_false_iff in Hf.
-  assert (Hacc : accepted av = true).
-  { unfold export_ast in E. rewrite Ha in E. unfold accepted.
-    destruct (a_target av); try reflexivity; discriminate. }
-  unfold Known_C17_nested_unexportable in Hn. rewrite Hacc in Hn. apply negb_false_iff in Hn.
   apply (export_parses st c a av j Hc Ha); try assumption.
   apply forallb_forall. intros d Hin. unfold value_ok.
   rewrite forallb_forall in Hf, Hd. rewrite (Hf d Hin), (Hd d Hin). reflexivity.
@@ -119,12 +113,13 @@ Lemma Known_C17_config_chars_witness :
   /\ export_of st (w_config (LIT "pre""fix:")) = None.
 Proof. split; vm_compute; reflexivity. Qed.
 
-Lemma Known_C17_nested_unexportable_witness :
-  let tgt := SComp [STxt 0 0; SKey] in
+(* formerly a class (fixed by 00f3950): a data key selector inside a complex selector is skipped and
+   leaves no separator behind; the export is the intended tree without that item *)
+Example C17_nested_unexportable_skipped :
+  let tgt := SComp [SKey; STxt 0 0; SData; SDir [SKey]; SRes 0; SKey] in
   let st := w_store tgt [w_datum VNull] in
-  Known_C17_nested_unexportable {| a_id := Some (LIT "a"); a_target := tgt; a_data := [] |} = true
-  /\ export_of st (w_config (LIT "_:")) = None.
-Proof. split; vm_compute; reflexivity. Qed.
+  exists j, export_ast st (w_config (LIT "_:")) 0 = Some j /\ export_of st (w_config (LIT "_:")) = Some j.
+Proof. eexists. split; vm_compute; reflexivity. Qed.
 
 (* two values under one key: well-formed, but a reader that keeps one member per name loses a value *)
 Lemma Known_C17_duplicate_names_witness :
